@@ -113,6 +113,7 @@ type Sched struct {
 	aborting     bool
 	lastStep     time.Time
 	wg           sync.WaitGroup
+	fields       map[*vhook.RWMutex]map[string][]fieldAccess
 }
 
 func New(ch Chooser) *Sched {
@@ -716,6 +717,44 @@ func (s *Sched) Access(m *vhook.RWMutex, write bool, site string) {
 			kind = "write"
 		}
 		s.Violations = append(s.Violations, fmt.Sprintf("unlocked %s of guarded map at %s", kind, site))
+	}
+}
+
+type fieldAccess struct {
+	t         *thread
+	write     bool
+	protected bool
+	site      string
+}
+
+// AccessField applies an Eraser-style rule to the other fields of a shared
+// scope: two accesses by different threads, at least one of them a write,
+// conflict unless both were made under the scope's lock (write lock for the
+// write).  Fields that are only written before the scope is shared never
+// conflict.
+func (s *Sched) AccessField(m *vhook.RWMutex, field string, write bool, site string) {
+	if s.aborting || s.Shared == nil || !s.Shared[m] {
+		return
+	}
+	s.mu.Lock()
+	defer s.mu.Unlock()
+	st := s.mx[m]
+	t := s.cur
+	prot := st != nil && (st.writer == t || (!write && st.readers[t] > 0))
+	if s.fields == nil {
+		s.fields = map[*vhook.RWMutex]map[string][]fieldAccess{}
+	}
+	if s.fields[m] == nil {
+		s.fields[m] = map[string][]fieldAccess{}
+	}
+	for _, a := range s.fields[m][field] {
+		if a.t != t && (a.write || write) && !(a.protected && prot) {
+			s.Violations = append(s.Violations, fmt.Sprintf("unsynchronised accesses to field %s of a shared scope (one of them a write) at %s", field, site))
+			break
+		}
+	}
+	if len(s.fields[m][field]) < 64 {
+		s.fields[m][field] = append(s.fields[m][field], fieldAccess{t, write, prot, site})
 	}
 }
 
